@@ -500,6 +500,20 @@ def run_parser_matrix(rep):
                 operands[k1], operands[k2])))
             forms.append(('store', (k1, k2), '(assert (= a (store a %s %s)))'
                           % (operands[k1], operands[k2])))
+    # definitions: the body must have the declared result sort (a ground
+    # Int body may stand for a Real one)
+    rets = {'Int': 'IV', 'Real': 'RV', 'Bool': 'B', '(_ BitVec 4)': 'BV4',
+            '(_ BitVec 3)': 'BV3', 'String': 'S', '(Array Int Int)': 'A'}
+    for ret in rets:
+        for k1 in operands:
+            forms.append(('define-fun', (rets[ret], k1),
+                          '(define-fun c03_d ((c03_v Int)) %s %s)'
+                          '(assert true)' % (ret, operands[k1])))
+            forms.append(('define-fun-param', (rets[ret], k1),
+                          '(define-fun c03_d ((c03_v Int)) %s (ite p '
+                          '%s %s))(assert true)' % (
+                              ret, operands[k1],
+                              'c03_v' if ret == 'Int' else operands[k1])))
     for i, (op, kinds, text) in enumerate(forms):
         if i % rep.nshards != rep.shard:
             continue
